@@ -86,3 +86,20 @@ Definition in_class (k : klass) (l : list op) : bool := existsb (klass_eqb k) (c
 (* the history meets no known class *)
 Definition known_free (l : list op) : bool :=
   match classes l with [] => true | _ => false end.
+
+(* the operations covered by the refinement theorem: everything except a crash
+   (C07) and the two recursive conveniences create_dir_all / remove_dir_all *)
+Definition c10_op (o : op) : bool :=
+  match o with Crash _ | MkdirAll _ | RmdirAll _ => false | _ => true end.
+
+(* plain-data rendering of the classes of a multi-host script (correspondence
+   cross-check against gen/fam_fs.py history_features) *)
+Definition klass_id (k : klass) : N :=
+  match k with
+  | KOpenOptsInvalid => 0 | KRootOp => 1 | KRenameSelf => 2 | KRenameFile => 3
+  | KRenameDir => 4 | KStaleHandle => 5 | KRecreate => 6
+  end.
+Definition host_ops (h : nat) (l : list (nat * op)) : list op :=
+  map snd (filter (fun e => Nat.eqb (fst e) h) l).
+Definition hclasses_enc (nhosts : nat) (l : list (nat * op)) : list N :=
+  flat_map (fun h => map klass_id (classes (host_ops h l))) (seq 0 nhosts).
